@@ -89,12 +89,16 @@ def _zone_worker(case):
 def extra(tier, seed, rep):
     import multiprocessing as mp
 
-    cuts = [2048, 4096, 32768] if tier == "quick" else [1024, 2048, 4096, 10000, 16384, 32768, 65536, 131072]
+    from vlib import longlist
+
+    cuts = [2048, 4096, 32768] if tier == "quick" else list(longlist.CUTS)
     todo = [{"zone_cut": c, "rule": r} for c in sorted(cuts, reverse=True) for r in ("pair", "varlen", "ordered-or", "long")]
+    # the greedy run across the cut (the rule whose first match a windowed search truncates) at every chunk-size candidate
+    todo = [{"zone_cut": c, "rule": "varlen"} for c in sorted(longlist.CUTS, reverse=True) if c not in cuts] + todo
     with mp.get_context("fork").Pool(16, maxtasksperchild=1) as pool:
         for case, ev in pool.imap_unordered(_zone_worker, todo, chunksize=1):
             rep.add_eval(case, ev)
-    rep.extra["zone_listings"] = {"cuts": cuts, "rules": 4, "modes": 8}
+    rep.extra["zone_listings"] = {"cuts_all_rules": cuts, "cuts_greedy_run_rule": list(longlist.CUTS), "rules": 4, "modes": 8}
 
 
 def evaluate(case):
